@@ -37,6 +37,7 @@ func famPhases(t *testing.T, seed int64, steps int) *Cluster {
 	opt.CommitTrack = seed%7 == 5
 	opt.BatchApplyCh = seed%2 == 1
 	opt.KeepMinorityDown = seed%5 == 4
+	opt.HBFast = seed%3 == 1
 	c := NewCluster(t, opt)
 	c.Bootstrap()
 	c.StartAll()
